@@ -113,45 +113,8 @@ class Ref:
         if 'curv4' in self._c:
             return self._c['curv4']
         G, dG, ddG = self.metric_arrays()
-        mv = np.moveaxis
-        Gi = mv(np.linalg.inv(mv(mv(G, 0, -1), 0, -1)), (-2, -1), (0, 1))
-        # d_a g^{mn} = - g^{mp} d_a g_{pq} g^{qn}
-        dGi = -np.einsum('mp...,apq...,qn...->amn...', Gi, dG, Gi)
-        # Gamma_{l m n} = 1/2 (d_m g_ln + d_n g_lm - d_l g_mn)
-        Gl = 0.5 * (np.einsum('mln...->lmn...', dG)
-                    + np.einsum('nlm...->lmn...', dG)
-                    - dG)
-        # d_r Gamma_{l m n}
-        dGl = 0.5 * (np.einsum('rmln...->rlmn...', ddG)
-                     + np.einsum('rnlm...->rlmn...', ddG)
-                     - ddG)
-        Gam = np.einsum('al...,lmn...->amn...', Gi, Gl)
-        dGam = (np.einsum('ral...,lmn...->ramn...', dGi, Gl)
-                + np.einsum('al...,rlmn...->ramn...', Gi, dGl))
-        # R^a_{b m n} = d_m Gam^a_{n b} - d_n Gam^a_{m b}
-        #               + Gam^a_{m l} Gam^l_{n b} - Gam^a_{n l} Gam^l_{m b}
-        Riem = (np.einsum('manb...->abmn...', dGam)
-                - np.einsum('namb...->abmn...', dGam)
-                + np.einsum('aml...,lnb...->abmn...', Gam, Gam)
-                - np.einsum('anl...,lmb...->abmn...', Gam, Gam))
-        Rdown = np.einsum('ai...,ibmn...->abmn...', G, Riem)
-        Ric = np.einsum('abad...->bd...', Riem)
-        RS = np.einsum('bd...,bd...->...', Gi, Ric)
-        Ein = Ric - 0.5 * RS * G
-        Ruudd = np.einsum('abcd...,be...->aecd...', Riem, Gi)
-        Kre = np.einsum('abcd...,cdab...->...', Ruudd, Ruudd)
-        Weyl = (Rdown
-                - 0.5 * (np.einsum('ac...,db...->abcd...', G, Ric)
-                         - np.einsum('ad...,cb...->abcd...', G, Ric)
-                         + np.einsum('bd...,ca...->abcd...', G, Ric)
-                         - np.einsum('bc...,da...->abcd...', G, Ric))
-                + (RS / 6.0) * (np.einsum('ac...,db...->abcd...', G, G)
-                                - np.einsum('ad...,cb...->abcd...', G, G)))
-        out = dict(gdown4=G, gup4=Gi, gdet=np.linalg.det(
-            mv(mv(G, 0, -1), 0, -1)), Gamma=Gam, dGamma=dGam,
-            Riemann_uddd=Riem, Riemann_down=Rdown, Riemann_uudd=Ruudd,
-            Ricci=Ric, RicciS=RS, Einstein=Ein, Kretschmann=Kre, Weyl=Weyl)
-        out['Tdown4'] = (Ein + self.Lambda * G) / KAPPA
+        out = curv4_from_arrays(G, dG, ddG)
+        out['Tdown4'] = (out['Einstein'] + self.Lambda * G) / KAPPA
         self._c['curv4'] = out
         return out
 
@@ -262,6 +225,45 @@ class Ref:
         if with_T:
             d['Tdown4'] = c['Tdown4']
         return d
+
+
+def curv4_from_arrays(G, dG, ddG):
+    """4D connection and curvature from the metric G (4,4,S), its first
+    derivatives dG[a] = d_a g_mn (4,4,4,S) and second derivatives ddG
+    (4,4,4,4,S): the textbook definitions, nothing else."""
+    mv = np.moveaxis
+    Gi = mv(np.linalg.inv(mv(mv(G, 0, -1), 0, -1)), (-2, -1), (0, 1))
+    dGi = -np.einsum('mp...,apq...,qn...->amn...', Gi, dG, Gi)
+    Gl = 0.5 * (np.einsum('mln...->lmn...', dG)
+                + np.einsum('nlm...->lmn...', dG)
+                - dG)
+    dGl = 0.5 * (np.einsum('rmln...->rlmn...', ddG)
+                 + np.einsum('rnlm...->rlmn...', ddG)
+                 - ddG)
+    Gam = np.einsum('al...,lmn...->amn...', Gi, Gl)
+    dGam = (np.einsum('ral...,lmn...->ramn...', dGi, Gl)
+            + np.einsum('al...,rlmn...->ramn...', Gi, dGl))
+    Riem = (np.einsum('manb...->abmn...', dGam)
+            - np.einsum('namb...->abmn...', dGam)
+            + np.einsum('aml...,lnb...->abmn...', Gam, Gam)
+            - np.einsum('anl...,lmb...->abmn...', Gam, Gam))
+    Rdown = np.einsum('ai...,ibmn...->abmn...', G, Riem)
+    Ric = np.einsum('abad...->bd...', Riem)
+    RS = np.einsum('bd...,bd...->...', Gi, Ric)
+    Ein = Ric - 0.5 * RS * G
+    Ruudd = np.einsum('abcd...,be...->aecd...', Riem, Gi)
+    Kre = np.einsum('abcd...,cdab...->...', Ruudd, Ruudd)
+    Weyl = (Rdown
+            - 0.5 * (np.einsum('ac...,db...->abcd...', G, Ric)
+                     - np.einsum('ad...,cb...->abcd...', G, Ric)
+                     + np.einsum('bd...,ca...->abcd...', G, Ric)
+                     - np.einsum('bc...,da...->abcd...', G, Ric))
+            + (RS / 6.0) * (np.einsum('ac...,db...->abcd...', G, G)
+                            - np.einsum('ad...,cb...->abcd...', G, G)))
+    return dict(gdown4=G, gup4=Gi, gdet=np.linalg.det(
+        mv(mv(G, 0, -1), 0, -1)), Gamma=Gam, dGamma=dGam,
+        Riemann_uddd=Riem, Riemann_down=Rdown, Riemann_uudd=Ruudd,
+        Ricci=Ric, RicciS=RS, Einstein=Ein, Kretschmann=Kre, Weyl=Weyl)
 
 
 def curv3(G, dG, ddG):
